@@ -382,5 +382,51 @@ func TestVerifC11Once(t *testing.T) {
 		if r.Err() != nil || r.Out(0) != 42 || calls != 1 {
 			t.Errorf("FAILING-INPUT call after Redefine: got %v calls=%d", r, calls)
 		}
+		// a run-once function used through several handles: redefined before its
+		// first execution (twice), called through both redefinitions, directly,
+		// and as a converter — one execution, one result for all
+		for _, order := range [][]int{{0, 1, 2, 3}, {2, 0, 1, 3}, {3, 1, 0, 2}, {1, 3, 2, 0}} {
+			runs := 0
+			once := MustFunc(NewFunc(func(s string) cA { runs++; return cA{100 + runs} }, FuncOnce()))
+			g1, err1 := once.Redefine()
+			g2, err2 := once.Redefine()
+			if err1 != nil || err2 != nil {
+				t.Errorf("FAILING-INPUT once across handles: Redefine failed: %v %v", err1, err2)
+				continue
+			}
+			user := MustFunc(NewFunc(func(a cA) int { return a.v }))
+			var got []interface{}
+			for _, h := range order {
+				var r Result
+				switch h {
+				case 0:
+					r = g1.Call(Typed("s0"))
+				case 1:
+					r = g2.Call(Typed("s1"))
+				case 2:
+					r = once.Call(Typed("s2"))
+				case 3:
+					r = user.Call(Typed("s3"), ConverterFunc(once))
+				}
+				if r.Err() != nil {
+					t.Errorf("FAILING-INPUT once across handles order=%v: use %d failed: %v", order, h, r.Err())
+					continue
+				}
+				v := r.Out(0)
+				if a, ok := v.(cA); ok {
+					v = a.v
+				}
+				got = append(got, v)
+			}
+			for _, v := range got {
+				if v != 101 {
+					t.Errorf("FAILING-INPUT once across handles order=%v: results %v, want the first execution's 101 everywhere", order, got)
+					break
+				}
+			}
+			if runs != 1 {
+				t.Errorf("FAILING-INPUT once across handles order=%v: body executed %d times", order, runs)
+			}
+		}
 	})
 }
